@@ -142,6 +142,35 @@ func runControls(r *Report) {
 			}
 			return n == 1 && bad == 0
 		}},
+		{"flag-path-sensitivity", "FlagGood", "FlagBad", func(f *ssa.Function) bool {
+			// from the edge on which the lookup missed, the use must be unreachable
+			var miss *ssa.BasicBlock
+			for _, b := range f.Blocks {
+				if iff, ok := b.Instrs[len(b.Instrs)-1].(*ssa.If); ok {
+					if ex, ok := iff.Cond.(*ssa.Extract); ok && ex.Index == 1 {
+						miss = b.Succs[1]
+						_ = iff
+					}
+				}
+			}
+			if miss == nil {
+				return false
+			}
+			// enter the join from the block that tested `found`
+			hits := WalkFrom(f.Blocks[0], nil, func(in ssa.Instruction) int {
+				if IsCallTo("use")(in) {
+					return Hit
+				}
+				return Cont
+			}, func(b *ssa.BasicBlock, succ int) bool {
+				// only follow the lookup-miss edge out of the entry block
+				if b == f.Blocks[0] {
+					return b.Succs[succ] == miss
+				}
+				return true
+			})
+			return len(hits) == 0
+		}},
 		{"read-at-least", "AtLeastGood", "AtLeastBad", func(f *ssa.Function) bool {
 			return ClassifyRead(callTo(f, "io:ReadAtLeast")).Shape == "full"
 		}},
